@@ -196,14 +196,16 @@ def apply_edits(item, edits, twin_false=False):
             item.desugar_iter_chain(at["source"], int(at.get("nth", "1")), at["elem"], at.get("out", "__out"), at.get("call"))
         elif k == "enum-eq":
             item.enum_eq(at["prefix"], int(at.get("count", "1")), at.get("why", ""), at.get("call"))
+        elif k == "drop-attrs":
+            item.drop_attrs(at.get("why", ""))
         elif k == "rename":
             item.rename_ident(at["from"], at["to"], at.get("why", ""))
         elif k == "desugar-for":
             item.desugar_for(int(at["loop"]), at.get("it", "vit"))
         elif k == "sinks":
-            item.sinks(int(at.get("count", "0")), at.get("fn", "ext_sink"))
+            item.sinks(-1 if at.get("count") == "any" else int(at.get("count", "0")), at.get("fn", "ext_sink"))
         elif k == "drop-logs":
-            item.drop_logs(int(at.get("count", "0")))
+            item.drop_logs(-1 if at.get("count") == "any" else int(at.get("count", "0")))
         elif k == "desugar-match-str":
             item.desugar_match_str(int(at.get("nth", "1")), at.get("eq", "ext_streq"))
         elif k == "name-return":
@@ -289,7 +291,8 @@ def generate(u, repo, specs_dir, twin_of=None):
         if it["wrap"]:
             out.append("}\n")
         end_line = "".join(out).count("\n")
-        fname = [s for s in it["steps"] if s.startswith("fn ")][-1][3:].strip()
+        fns = [s for s in it["steps"] if s.startswith("fn ")]
+        fname = fns[-1][3:].strip() if fns else it["steps"][-1].strip()
         meta["items"].append({"relpath": it["relpath"], "path": item.path, "fn": fname,
                               "label": it["as"] or fname,
                               "src_lines": [item.line, item.end_line],
